@@ -152,7 +152,7 @@ class Gateway:
         i = len(self.attempt_times)
         return self.conns[i] if i < len(self.conns) else {}
 
-    async def _open(self):
+    async def _open(self, limit=None):
         sp = self._spec()
         loop = asyncio.get_running_loop()
         self.attempt_times.append(loop.time())
@@ -164,7 +164,7 @@ class Gateway:
         await _sleep(float(sp.get("delay", 0.0)))       # always a real suspension (sleep(0) yields once)
         if refuse:
             raise self._failure()
-        r = asyncio.StreamReader()
+        r = asyncio.StreamReader(limit=limit) if limit else asyncio.StreamReader()     # the limit the client asked for, if any
         w = FakeWriter(self, len(self.writers), r)
         w.mode = sp.get("drain", "ok")
         self.writers.append(w)
@@ -192,7 +192,7 @@ class Gateway:
         return e
 
     async def open_connection(self, host=None, port=None, **kw):
-        return await self._open()
+        return await self._open(limit=kw.get("limit"))
 
     async def open_serial_connection(self, **kw):
         return await self._open()
